@@ -5,6 +5,7 @@ import WinterProofs.Lemmas.C10Asm
 import WinterProofs.Lemmas.C10Unique
 import WinterProofs.Lemmas.C10Spec
 import WinterProofs.Lemmas.C10Paths
+import WinterProofs.Lemmas.C10PathsHonest
 
 namespace WinterProofs.C10
 open Model.Merkle
@@ -169,18 +170,31 @@ theorem paths_no_panic (H : Hasher D) (p : BatchProof D) (idxs : List Nat) :
 
 /-! ## Decompression and re-compression (`into_paths`, `from_paths`) -/
 
-/-- The round trips, stated at full strength (NOT proved; exercised exhaustively for all trees of
+/-- Decompression: for every tree over `2^d` leaves (`1 ≤ d ≤ 63`) and every non-empty duplicate-free
+    list of at most 255 in-range positions, in any order, the opening `prove_batch` produces
+    decompresses (`into_paths`) into exactly the single paths `prove` produces for the positions, in
+    the order of the position list. -/
+theorem paths_decompress (H : Hasher D) (leaves : List D) (d : Nat)
+    (hd1 : 1 ≤ d) (hd2 : d ≤ 63) (hl : leaves.length = 2 ^ d) (idxs : List Nat) (hne : idxs ≠ [])
+    (hlen : idxs.length ≤ 255) (hnd : idxs.Nodup) (hr : ∀ i ∈ idxs, i < 2 ^ d) :
+    ∃ p paths, proveBatch H (treeOf H leaves) idxs = .ok p ∧ intoPaths H p idxs = .ok paths ∧
+      paths.length = idxs.length ∧
+      ∀ j (hj : j < idxs.length), prove (treeOf H leaves) idxs[j] = .ok (paths.getD j []) :=
+  intoPaths_honest_wf H _ d (tree_wf H leaves d hd1 hl) hd2 idxs hne hlen hnd hr
+
+/-- Re-compression, stated at full strength (NOT proved; exercised exhaustively for all trees of
     2..16 leaves, all position subsets and orders by the correspondence harness, and on the concrete
-    opening below): the opening produced by `prove_batch` decompresses into exactly the single
-    paths `prove` produces, in the order of the position list, and these re-compress to the same
-    opening; conversely paths re-compressed by `from_paths` decompress to themselves. -/
-def PathsRoundTrip (H : Hasher D) : Prop :=
+    opening below): the single paths of a position list re-compress (`from_paths`) to the opening
+    `prove_batch` produces.  With `paths_decompress` this is the round trip
+    `from_paths ∘ into_paths = id` on the openings of the tree; by `batch_unique` it would follow from
+    "`get_root` accepts the output of `from_paths`".  (False on the pinned tree for unsorted position
+    lists; repaired by 725da49.) -/
+def PathsRecompress (H : Hasher D) : Prop :=
   ∀ (leaves : List D) (d : Nat), 1 ≤ d → d ≤ 63 → leaves.length = 2 ^ d →
   ∀ (idxs : List Nat), idxs ≠ [] → idxs.length ≤ 255 → idxs.Nodup → (∀ i ∈ idxs, i < 2 ^ d) →
-    ∃ p paths, proveBatch H (treeOf H leaves) idxs = .ok p ∧
-      paths.length = idxs.length ∧
-      (∀ j (hj : j < idxs.length), prove (treeOf H leaves) idxs[j] = .ok (paths.getD j [])) ∧
-      intoPaths H p idxs = .ok paths ∧ fromPaths H paths idxs = .ok p
+  ∀ (paths : List (List D)), paths.length = idxs.length →
+    (∀ j (hj : j < idxs.length), prove (treeOf H leaves) idxs[j] = .ok (paths.getD j [])) →
+    fromPaths H paths idxs = proveBatch H (treeOf H leaves) idxs
 
 /-! ## The specification `specRoot` (WinterProofs/Lemmas/C10Spec.lean)
 
@@ -348,6 +362,8 @@ example := single_complete exH exLeaves 3 (by decide) (by decide) (by decide) 5 
 example := single_binding exH exH_inj exLeaves 3 (by decide) (by decide) (by decide) exRoot (by decide) 5 (by decide)
   exPath5 (by decide) (by decide)
 example := batch_complete exH exLeaves 3 (by decide) (by decide) (by decide) [6, 1, 3] (by decide) (by decide)
+  (by decide) (by decide)
+example := paths_decompress exH exLeaves 3 (by decide) (by decide) (by decide) [6, 1, 3] (by decide) (by decide)
   (by decide) (by decide)
 example := batch_binding exH exH_inj exLeaves 3 (by decide) (by decide) exRoot (by decide) exBatch rfl [6, 1, 3]
   (by decide)
